@@ -92,7 +92,7 @@ class C04(Prop):
     design_ref = '§5 C04'
     rule = ('sequences of correctly delimited frames (valid, undecodable, ignored, zero-length) plus optional truncated/garbage tail, cut into reads by '
             'five chunking styles (single bytes, whole, one cut, cuts inside every prefix, random); byte-stream mode through FrameParser and through '
-            'TransportTCP.next_frame_generator with varying read sizes; message mode incl. the empty message, and whole messages through a real message transport (TransportAioHttpWebsocket fed by a fake websocket, frames pulled through AbstractMessagingTransport.next_frame_generator); the QUIC transport (RSocketQuicProtocol + RSocketQuicTransport driven with StreamDataReceived events for the chunks and a final ConnectionTerminated, the listener task scheduled between all / none / all but the last two / random events); bursts of 257..1100 small frames that are all there before the consumer runs once (TCP read, websocket message batch, QUIC events); non-trivial = at least two frames and at least '
+            'TransportTCP.next_frame_generator with varying read sizes; message mode incl. the empty message, and whole messages through each of the library\'s message transports that can be fed by a fake websocket (aiohttp server and client, asyncwebsockets client, websockets, HTTP/3), frames pulled through AbstractMessagingTransport.next_frame_generator; the QUIC transport (RSocketQuicProtocol + RSocketQuicTransport driven with StreamDataReceived events for the chunks and a final ConnectionTerminated, the listener task scheduled between all / none / all but the last two / random events); bursts of 257..1100 small frames that are all there before the consumer runs once (TCP read, websocket message batch, QUIC events); non-trivial = at least two frames and at least '
             'one cut strictly inside a frame or its prefix (stream mode), or a message-mode case; distinct = distinct (bytes, chunking)')
     assumptions = ['the per-frame decoder is a parameter of the theorem; with the stub decoder the harness replaces rsocket.frame_parser.parse_or_ignore']
 
@@ -127,7 +127,8 @@ class C04(Prop):
                     c['cuts'], c['style'] = None, None
                     c['seed'] = rng.getrandbits(32)
                 elif kind == 'wsmsg':
-                    pass
+                    # which of the library's message transports receives the messages (each has its own pump around the shared parser)
+                    c['which'] = rng.choice(['aiohttp-server', 'aiohttp-client', 'asyncwebsockets', 'websockets', 'http3'])
                 elif kind == 'quic':
                     # the QUIC transport: stream chunks arrive as events; the listener task may or may not get to run between two of them, and
                     # the termination event may arrive in the same loop iteration as the last chunks (one datagram carrying both)
@@ -140,7 +141,7 @@ class C04(Prop):
                 m = rng.choice([b'', b'', b'\xee', b'\xdd\x01', FR.rbytes(rng, 1, 30)])
                 out.append({'kind': 'msg', 'msg': m.hex(), 'real': rng.random() < 0.3})
         # bursts: hundreds of small frames that are all there before the consumer runs once (one big read / one batch of messages)
-        for i in range(9 if tier == 'quick' else 60):
+        for i in range(15 if tier == 'quick' else 60):
             kind = ['wsmsg', 'tcp', 'quic'][i % 3]
             base = [FR.gen_spec(rng, kinds=['REQUEST_FNF', 'PAYLOAD', 'REQUEST_N', 'CANCEL', 'KEEPALIVE']) for _ in range(7)]
             for b in base:
@@ -148,6 +149,8 @@ class C04(Prop):
                     if b.get(k):
                         b[k] = b[k][:16]
             c = {'kind': kind, 'specs': [base[j % 7] for j in range(rng.choice([257, 300, 700, 1100]))], 'junk': '', 'junk_pos': 0, 'junk_undecodable': False, 'burst': True}
+            if kind == 'wsmsg':
+                c['which'] = ['aiohttp-server', 'aiohttp-client', 'asyncwebsockets', 'websockets', 'http3'][(i // 3) % 5]
             if kind == 'tcp':
                 c['read'] = 1 << 16
             elif kind == 'quic':
@@ -246,11 +249,58 @@ class C04(Prop):
                             yield Msg(b)
                     return it()
 
+            which = case.get('which', 'aiohttp-server')
+
+            def make():
+                """-> (transport, coroutine that pumps all messages into it)"""
+                if which == 'aiohttp-server':
+                    t = TransportAioHttpWebsocket(WS())
+                    return t, t.handle_incoming_ws_messages()
+                if which == 'aiohttp-client':
+                    from rsocket.transports.aiohttp_websocket import TransportAioHttpClient
+                    t = TransportAioHttpClient(websocket=WS())
+                    t._connection_ready.set()
+                    return t, t.handle_incoming_ws_messages()
+                if which == 'asyncwebsockets':
+                    from rsocket.transports.asyncwebsockets_transport import TransportAsyncWebsocketsClient
+                    from wsproto.events import BytesMessage
+
+                    class WSB:
+                        def __aiter__(self):
+                            async def it():
+                                for b in bodies:
+                                    yield BytesMessage(data=b)
+                            return it()
+                    t = TransportAsyncWebsocketsClient(WSB())
+                    return t, t.handle_incoming_ws_messages()
+                if which == 'websockets':
+                    from rsocket.transports.websockets_transport import WebsocketsTransport
+
+                    class WSR:
+                        def __aiter__(self):
+                            async def it():
+                                for b in bodies:
+                                    yield b
+                            return it()
+                    t = WebsocketsTransport()
+                    return t, t.consumer_handler(WSR())
+                from rsocket.transports.http3_transport import Http3TransportWebsocket
+                from starlette.websockets import WebSocketDisconnect
+                left = list(bodies)
+
+                class WS3:
+                    async def receive_bytes(self):
+                        if not left:
+                            raise WebSocketDisconnect()
+                        return left.pop(0)
+                t = Http3TransportWebsocket(WS3())
+                return t, asyncio.wait_for(asyncio.shield(t._listener), 10)
+
             async def go_ws():
-                t = TransportAioHttpWebsocket(WS())
+                t, pump = make()
                 items = []
                 try:
-                    await t.handle_incoming_ws_messages()
+                    await pump
                 except Exception as e:
                     pump_error = 'RAISED:' + type(e).__name__      # the pump gave up: what it had queued is still read out below
                 else:
@@ -271,7 +321,7 @@ class C04(Prop):
                     items.append(pump_error)
                 return items, t._incoming_frame_queue.empty()
             items, ok = lp.run_until_complete(asyncio.wait_for(go_ws(), 20))
-            return {'expected': expected, 'valid_only': valid_only, 'runs': {'websocket-messages': {'items': items, 'residual': '', 'terminated': ok}}, 'nbytes': len(data)}
+            return {'expected': expected, 'valid_only': valid_only, 'runs': {'messages through the %s transport' % which: {'items': items, 'residual': '', 'terminated': ok}}, 'nbytes': len(data)}
         if kind == 'quic':
             import random
             from aioquic.quic.configuration import QuicConfiguration
@@ -441,11 +491,13 @@ class C04(Prop):
         if k == 'msg':
             return json.dumps(['msg', case['msg'], case['real']])
         if len(case['specs']) >= 2:
-            return json.dumps([k, case['specs'], case['junk'], case['junk_pos'], case.get('seed'), case.get('read'), case.get('schedule')], sort_keys=True)
+            return json.dumps([k, case['specs'], case['junk'], case['junk_pos'], case.get('seed'), case.get('read'), case.get('schedule'), case.get('which')], sort_keys=True)
         return None
 
     def stats(self, case, obs):
         yield 'kind=' + case['kind']
+        if case['kind'] == 'wsmsg':
+            yield 'message-transport=' + case.get('which', 'aiohttp-server')
         if case['kind'] == 'stub':
             yield 'style=' + case['style']
             if 'X' in obs['items']:
